@@ -1198,7 +1198,7 @@ class Arm(Robot):
             theta_dot,
             tau,
             grav,
-            end_effector_wrench,
+            end_effector_wrench.reshape((6)),
             link_mass_array,
             self._box_spatial_links,
             self.screw_list)
